@@ -50,15 +50,22 @@ RdEofPreds(e) ==
 Digests(seq) == [i \in 1..Len(seq) |-> seq[i].d]
 Types(seq)   == [i \in 1..Len(seq) |-> seq[i].ty]
 
+\* "exactly the NAL units from the first keyframe onward, in order" = out = FromKey(pk, k), evaluated as
+\* three conjuncts so that a failure says what went wrong (and a known late start cannot hide an early
+\* one, or the reverse).  With n = number of packetized units from the first key unit onward:
+\*   KeyKept       : at least n units are output and the n-th from the end is the first key unit
+\*                   (nothing from the first key unit onward is missing)
+\*   NothingBefore : at most n units are output (none when no key unit was packetized)
+\*   OrderAndBytes : whatever is output is a contiguous tail of the packetized units, byte for byte
+\* KeyKept /\ NothingBefore /\ OrderAndBytes  <=>  out = FromKey(pk, k)  (unit digests are unique per case)
 WrPreds(e) ==
-  LET k == FirstKey(Types(e.pk), e.codec) IN {
-   \* the output starts at the first key unit and has as many units as follow it
-   \* (nothing at all when no key unit was packetized)
-   P("C35", "FromFirstKey", Len(e.pk) >= 1,
-        IF k = 0 THEN Len(e.out) = 0
-        ELSE /\ Len(e.out) = Len(e.pk) - k + 1
-             /\ e.out[1].d = e.pk[k].d),
-   \* whatever is output is a contiguous tail of the packetized units, byte for byte, in order
+  LET k == FirstKey(Types(e.pk), e.codec)
+      n == IF k = 0 THEN 0 ELSE Len(e.pk) - k + 1
+  IN {
+   P("C35", "FromFirstKey-KeyKept", k > 0,
+        /\ Len(e.out) >= n
+        /\ e.out[Len(e.out) - n + 1].d = e.pk[k].d),
+   P("C35", "FromFirstKey-NothingBefore", Len(e.pk) >= 1, Len(e.out) <= n),
    P("C35", "OrderAndBytes", Len(e.out) >= 1, IsSuffix(Digests(e.out), Digests(e.pk)))
   }
 
